@@ -182,7 +182,10 @@ RULE = ('every descriptor the real loader exports (ESTA + manufacturer, GET/SET 
         'manufacturer, ESTA PIDs, new PIDs, new manufacturers, mixtures; or none) through LoadFromDirectory of '
         'RootPidStore and PidStoreLoader and LoadFromStream, validate on and off, against the model table '
         'override_descs/override_pids (key lx + digest; the digest also checks the by-name index); '
-        '`many N`: N rounds of every loader entry point in one process under RLIMIT_NOFILE = open descriptors + 24; '
+        '`seq`: ONE long-lived PidStoreLoader through sequences of loads (shipped directory, single shipped files, '
+        'and 8 kinds of texts that must be refused after they already defined clashing PIDs: duplicate value / '
+        'name, ESTA value in the manufacturer range, parse error, manufacturer twice, string without max_size, '
+        'inconsistent frame), outcome of every load compared (key sq); `many N`: N rounds of every loader entry point in one process under RLIMIT_NOFILE = open descriptors + 24; '
         'every load must succeed with the same table and the number of open descriptors must not change; '
         '`race T R`: R fresh validate=false stores, T threads (own deserializer each) make the first use of every '
         'group-bearing descriptor simultaneously (barrier per item), answers compared with the single-threaded '
@@ -215,7 +218,7 @@ TRUSTED = ['modelled rather than verified: Descriptor.h/.cpp size functions, Des
            'GroupSizeCalculator is modelled (gcalc) and compared on every case with the payload length as token '
            'count (key gs, internal); PidStoreHelper, StringMessageBuilder and the message printers are outside '
            'the decode/re-encode path and not covered']
-SPEC_KEYS = ['h', 'many', 'race', 'post', 'ld', 'lx', 'nstores', 'dg', 'conc', 'items', 'helper', 'r', 'ser', 'same', 'again', 'shared', 'ldes', 'sweep', 'n', 'cc', 'specfail', 'ndesc', 'npids', 'load']
+SPEC_KEYS = ['h', 'sq', 'many', 'race', 'post', 'ld', 'lx', 'nstores', 'dg', 'conc', 'items', 'helper', 'r', 'ser', 'same', 'again', 'shared', 'ldes', 'sweep', 'n', 'cc', 'specfail', 'ndesc', 'npids', 'load']
 # not property-determined (internal): d (descriptor text), cs (calculator state), gs (GroupSizeCalculator state),
 # m (message text), cap (m_buffer_size)
 INTERNAL_KEYS = []
@@ -545,6 +548,32 @@ def _gen_loader_cases(rng, ents, tier):
                 continue      # strict validation refuses duplicates; the shipped files have none
             for entry in ('file', 'loader', 'stream'):
                 yield 'ldf %d %s %s %d %d %d %s' % (validate, entry, fn, len(descs), len(pids), len(stores), _digest(ent))
+    # (1b) ONE long-lived PidStoreLoader through sequences of loads, refused ones included
+    fexp = []
+    for i, fn in enumerate(sorted(f for f in os.listdir(data) if f.endswith('.proto'))):
+        try:
+            descs, pids, stores, dup = _read_file_table(os.path.join(data, fn))
+        except Exception:
+            continue
+        if dup:
+            continue
+        ent = (['D:%d:%d:%d:%s' % (k + (d,)) for k, d in descs.items()] +
+               ['P:%d:%d:%s' % (k + (n,)) for k, n in pids.items()] + ['S:%d' % m for m in stores])
+        fexp.append((i, len(descs), len(pids), len(stores), _digest(ent)))
+    for k in range(8):                                  # every kind of refusal directly before a directory load
+        yield 'seq B%d,D1' % k
+        yield 'seq D%d,B%d,D%d' % (rng.randrange(2), k, rng.randrange(2))
+    for _ in range(6 if quick else 60):
+        steps = []
+        for _ in range(rng.choice([3, 4, 6])):
+            r = rng.random()
+            if r < 0.45: steps.append('B%d' % rng.randrange(8))
+            elif r < 0.8 or not fexp: steps.append('D%d' % rng.randrange(2))
+            else:
+                e = rng.choice(fexp)
+                steps.append('F%d:%d:%d:%d:%d:%s' % (e[0], rng.randrange(2), e[1], e[2], e[3], e[4]))
+        steps.append('D%d' % rng.randrange(2))
+        yield 'seq ' + ','.join(steps)
     # (2) the whole directory (+ generated overrides.proto) through every entry point and flag
     by_man = {}
     for m, pid, kind, d, name in ents:
